@@ -1418,6 +1418,8 @@ impl<'i, R: RuleType> ParserState<'i, R> {
         F: FnOnce(Box<Self>) -> ParseResult<Box<Self>>,
     {
         self = self.inc_call_check_limit()?;
+        #[cfg(all(pest_parser_pest_verif, feature = "std"))]
+        verif::trace_ctl(true, if is_positive { "&" } else { "!" });
         let initial_lookahead = self.lookahead;
 
         self.lookahead = if is_positive {
@@ -1448,6 +1450,9 @@ impl<'i, R: RuleType> ParserState<'i, R> {
                 Err(new_state.restore())
             }
         };
+
+        #[cfg(all(pest_parser_pest_verif, feature = "std"))]
+        verif::trace_ctl(false, if is_positive { "&" } else { "!" });
 
         if is_positive {
             result_state
@@ -1487,6 +1492,14 @@ impl<'i, R: RuleType> ParserState<'i, R> {
         F: FnOnce(Box<Self>) -> ParseResult<Box<Self>>,
     {
         self = self.inc_call_check_limit()?;
+        #[cfg(all(pest_parser_pest_verif, feature = "std"))]
+        let verif_label = match atomicity {
+            Atomicity::Atomic => "@",
+            Atomicity::CompoundAtomic => "$",
+            Atomicity::NonAtomic => "~",
+        };
+        #[cfg(all(pest_parser_pest_verif, feature = "std"))]
+        verif::trace_ctl(true, verif_label);
         // In case child parsing call is another `atomic` it will have its own atomicity status.
         let initial_atomicity = self.atomicity;
         // In case child atomicity is the same as we've demanded, we shouldn't do nothing.
@@ -1501,6 +1514,9 @@ impl<'i, R: RuleType> ParserState<'i, R> {
         }
 
         let result = f(self);
+
+        #[cfg(all(pest_parser_pest_verif, feature = "std"))]
+        verif::trace_ctl(false, verif_label);
 
         match result {
             Ok(mut new_state) => {
@@ -1944,6 +1960,24 @@ pub mod verif {
     #[cfg(feature = "std")]
     pub fn trace_take() -> Vec<TraceEvent> {
         TRACE.with(|t| t.borrow_mut().take().unwrap_or_default())
+    }
+
+    /// Records entry/exit of a `lookahead` ("&" / "!") or `atomic` ("@" / "$" / "~") call as a
+    /// trace event whose `rule` is that label prefixed with `#`.
+    #[cfg(feature = "std")]
+    pub(super) fn trace_ctl(enter: bool, label: &str) {
+        TRACE.with(|t| {
+            if let Some(v) = t.borrow_mut().as_mut() {
+                v.push(TraceEvent {
+                    enter,
+                    rule: alloc::format!("#{label}"),
+                    pos: 0,
+                    lookahead: Lookahead::None,
+                    atomicity: Atomicity::NonAtomic,
+                    ok: false,
+                });
+            }
+        });
     }
 
     #[cfg(feature = "std")]
